@@ -82,9 +82,16 @@ func callableEnum() {
 		gen(nil)
 		for _, args := range lists {
 			for tv := 0; tv < callableTargetVariants; tv++ {
-				n++
-				if msg := callableCase(fn, fi, rec, args, tv); msg != "" {
-					report("%s", msg)
+				for mode := 0; mode < 3; mode++ {
+					// omitting CallArgs is "no arguments": only in the stated domain (Call WITH an
+					// argument list) where the empty list is a valid argument list of fn
+					if mode == 2 && (len(args) != 0 || !callableArgsAccepted(ft, args)) {
+						continue
+					}
+					n++
+					if msg := callableCase(fn, fi, rec, args, tv, mode); msg != "" {
+						report("%s", msg)
+					}
 				}
 			}
 		}
@@ -102,7 +109,7 @@ func callableEnum() {
 			}
 			for tv := 0; tv < callableTargetVariants; tv++ {
 				n++
-				if msg := callableCase(funcs[fi], fi, rec, args, tv); msg != "" {
+				if msg := callableCase(funcs[fi], fi, rec, args, tv, tv%2); msg != "" {
 					report("%s", msg)
 				}
 			}
@@ -111,20 +118,61 @@ func callableEnum() {
 	for bi, fn := range []any{callableBig128, callableBig129} {
 		for tv := 0; tv < callableTargetVariants; tv++ {
 			n++
-			if msg := callableCase(fn, 100+bi, &cRec{}, nil, tv); msg != "" {
+			if msg := callableCase(fn, 100+bi, &cRec{}, nil, tv, tv%3); msg != "" {
 				report("%s", msg)
 			}
 		}
 	}
+	// the slice passed to CallArgs is changed between building the option and the Call (one position,
+	// every value of the alphabet): the call must see all-old or all-new arguments, or be refused
+	for fi, fn := range funcs {
+		ft := reflect.TypeOf(fn)
+		maxLen := ft.NumIn()
+		if ft.IsVariadic() {
+			maxLen++
+		}
+		var lists [][]any
+		var gen func(cur []any)
+		gen = func(cur []any) {
+			if len(cur) > 0 {
+				lists = append(lists, append([]any(nil), cur...))
+			}
+			if len(cur) == maxLen {
+				return
+			}
+			for _, a := range alphabet {
+				gen(append(cur, a))
+			}
+		}
+		gen(nil)
+		for _, old := range lists {
+			if !callableArgsAccepted(ft, old) && len(old) > 1 {
+				continue // keep the sweep small: unacceptable starting lists only for one-element lists
+			}
+			for pos := range old {
+				for _, nv := range alphabet {
+					n++
+					if msg := callableMutCase(fn, fi, rec, old, pos, nv); msg != "" {
+						report("%s", msg)
+					}
+				}
+			}
+		}
+	}
+	// a refused Call followed by a Call that omits an option kind: nothing of the first may be
+	// visible in the second (state kept between calls), for every (refused, next) pair
+	n += callablePairs(funcs, rec, report)
 	vrt.AddEvaluations(n)
 	vrt.Log("enumerated", n, bad)
 }
 
 // callableCase runs one Call and compares with the expectation; "" = as specified.
-func callableCase(fn any, fi int, rec *cRec, args []any, tv int) (msg string) {
+// mode 0: options (CallArgs, results option); 1: (results option, CallArgs); 2: CallArgs omitted (empty lists only).
+func callableCase(fn any, fi int, rec *cRec, args []any, tv int, mode int) (msg string) {
 	ft := reflect.TypeOf(fn)
 	desc := func() string {
-		return fmt.Sprintf("f%d %v args=%s targets=%s", fi, ft, callableShow(args), callableTargetName(tv))
+		return fmt.Sprintf("f%d %v args=%s targets=%s options=%s", fi, ft, callableShow(args), callableTargetName(tv),
+			[...]string{"args,results", "results,args", "results only"}[mode])
 	}
 	rec.calls, rec.args, callableBigCalls = 0, nil, 0
 	untracked := fi >= 100 // the boundary functions count their calls in callableBigCalls and take no arguments
@@ -134,8 +182,14 @@ func callableCase(fn any, fi int, rec *cRec, args []any, tv int) (msg string) {
 	panicked := any(nil)
 	func() {
 		defer func() { panicked = recover() }()
-		opts := []CallOption{CallArgs(args...)}
-		if opt != nil {
+		var opts []CallOption
+		if mode == 1 && opt != nil {
+			opts = append(opts, opt)
+		}
+		if mode != 2 {
+			opts = append(opts, CallArgs(args...))
+		}
+		if mode != 1 && opt != nil {
 			opts = append(opts, opt)
 		}
 		err = Call(NewCallable(fn), opts...)
@@ -175,6 +229,156 @@ func callableCase(fn any, fi int, rec *cRec, args []any, tv int) (msg string) {
 		return fmt.Sprintf("targets-touched: %s: %s", desc(), m)
 	}
 	return ""
+}
+
+// callableMutCase: opt := CallArgs(buf...); buf[pos] = nv; Call(fn, opt, CallResults(correct targets)).
+func callableMutCase(fn any, fi int, rec *cRec, old []any, pos int, nv any) string {
+	ft := reflect.TypeOf(fn)
+	buf := append([]any(nil), old...)
+	cur := append([]any(nil), old...)
+	cur[pos] = nv
+	desc := func() string {
+		return fmt.Sprintf("f%d %v CallArgs(%s...) then element %d replaced by %s before Call", fi, ft, callableShow(old), pos, callableShow([]any{nv}))
+	}
+	rec.calls, rec.args = 0, nil
+	targets, opt, _ := callableTargets(ft, 1)
+	oldOK, newOK := callableArgsAccepted(ft, old), callableArgsAccepted(ft, cur)
+	var err error
+	panicked := any(nil)
+	func() {
+		defer func() { panicked = recover() }()
+		a := CallArgs(buf...)
+		buf[pos] = nv
+		opts := []CallOption{a}
+		if opt != nil {
+			opts = append(opts, opt)
+		}
+		err = Call(NewCallable(fn), opts...)
+	}()
+	if panicked != nil {
+		return fmt.Sprintf("panic: %s: %v", desc(), panicked)
+	}
+	if err != nil {
+		if oldOK && newOK {
+			return fmt.Sprintf("rejected-valid: %s: %v", desc(), err)
+		}
+		if rec.calls != 0 {
+			return fmt.Sprintf("called-despite-error: %s", desc())
+		}
+		if m := targets.untouched(); m != "" {
+			return fmt.Sprintf("targets-touched: %s: %s", desc(), m)
+		}
+		return ""
+	}
+	if rec.calls != 1 {
+		return fmt.Sprintf("not-called-once: %s: called %d times", desc(), rec.calls)
+	}
+	got := rec.args
+	for _, cand := range [][]any{cur, old} {
+		ok := callableArgsAccepted(ft, cand)
+		if ok && callableCompareArgs(ft, cand, got) == "" {
+			if m := targets.check(callableDirect(fn, cand)); m != "" {
+				return fmt.Sprintf("wrong-results: %s: %s", desc(), m)
+			}
+			return ""
+		}
+	}
+	if !oldOK && !newOK {
+		return fmt.Sprintf("accepted-invalid: %s", desc())
+	}
+	return fmt.Sprintf("wrong-arguments: %s: called with %s, neither the list given to CallArgs nor the list at the time of Call", desc(), callableShow(got))
+}
+
+type callableNotFunc struct{}
+
+func (callableNotFunc) Type() reflect.Type           { return reflect.TypeOf(0) }
+func (callableNotFunc) Call(args, results any) error { return errors.New("not reached") }
+
+// callablePairs: every refused Call (an accepted option followed by a refused one, or a caller that
+// is not a func) followed by every probe that omits options; returns the number of pairs.
+func callablePairs(funcs []any, rec *cRec, report func(string, ...any)) int {
+	type refusal struct {
+		name string
+		run  func() (error, func() string)
+	}
+	intTarget := func() (*int, func() string) {
+		x := new(int)
+		return x, func() string {
+			if *x != 0 {
+				return fmt.Sprintf("a target of the refused call now holds %d", *x)
+			}
+			return ""
+		}
+	}
+	refusals := []refusal{
+		{"CallResults(ok), CallArgs(bad)", func() (error, func() string) {
+			x, chk := intTarget()
+			return Call(NewCallable(funcs[1]), CallResults(x), CallArgs("s")), chk
+		}},
+		{"CallArgs(ok), CallResults(bad)", func() (error, func() string) {
+			return Call(NewCallable(funcs[1]), CallArgs(41), CallResults("not a pointer")), func() string { return "" }
+		}},
+		{"CallResultsSlice(ok), CallArgs(bad)", func() (error, func() string) {
+			var xs []int
+			return Call(NewCallable(funcs[1]), CallResultsSlice(&xs), CallArgs(nil)), func() string {
+				if len(xs) != 0 {
+					return fmt.Sprintf("the slice target of the refused call now holds %v", xs)
+				}
+				return ""
+			}
+		}},
+		{"CallArgs(ok), CallResults(ok), caller whose Type is not a func", func() (error, func() string) {
+			x, chk := intTarget()
+			return Call(callableNotFunc{}, CallArgs(1), CallResults(x)), chk
+		}},
+		{"CallArgs(7,8,9) on a variadic, CallResults(too many)", func() (error, func() string) {
+			x, chk := intTarget()
+			return Call(NewCallable(funcs[2]), CallArgs(7, 8, 9), CallResults(x, x)), chk
+		}},
+	}
+	type probe struct {
+		fi   int
+		args []any
+		tv   int
+		mode int
+	}
+	probes := []probe{
+		{0, nil, 0, 2},         // func(): no option at all
+		{2, nil, 0, 2},         // func(...int): no option at all
+		{2, nil, 1, 2},         // func(...int): results only
+		{1, []any{3}, 0, 0},    // func(int) int: args only
+		{2, []any{1, 2}, 0, 0}, // func(...int) int: args only
+		{12, []any{1, "x"}, 1, 1},
+	}
+	n := 0
+	for _, r := range refusals {
+		for _, p := range probes {
+			n++
+			panicked := any(nil)
+			var err error
+			var chk func() string
+			func() {
+				defer func() { panicked = recover() }()
+				err, chk = r.run()
+			}()
+			if panicked != nil {
+				report("panic: refused call [%s]: %v", r.name, panicked)
+				continue
+			}
+			if err == nil {
+				report("accepted-invalid: [%s] returned nil", r.name)
+				continue
+			}
+			if msg := callableCase(funcs[p.fi], p.fi, rec, p.args, p.tv, p.mode); msg != "" {
+				report("after-refusal: after the refused call [%s]: %s", r.name, msg)
+				continue
+			}
+			if m := chk(); m != "" {
+				report("after-refusal: after the refused call [%s] and a later call: %s", r.name, m)
+			}
+		}
+	}
+	return n
 }
 
 func init() {
